@@ -953,7 +953,8 @@ def r10_derived(prog, rep: Report, sf: StorageFacts):
 
 def r9_no_stale_handles(prog, rep: Report, sf: StorageFacts):
     rep.rule("C14.R9", "no closed handle stays cached: on every path through close(), a field through which a file handle was "
-             "closed (directly, or as the container the closed handles come from) is re-assigned or cleared before close() returns",
+             "closed (directly, or as the container the closed handles come from) is re-assigned or cleared before close() returns; "
+             "and no path through close() returns without re-assigning that cache at all (an early exit that only looks at the write file)",
              floor=1)
     f = prog.method(sf.cls, "close")
     rep.fn(f)
@@ -966,6 +967,31 @@ def r9_no_stale_handles(prog, rep: Report, sf: StorageFacts):
     if client.closes == 0:
         rep.unrec("C14.R9", f, "close", "close() closes no handle held in a field")
         return
+    # every way out of close() has dropped the cached read handles: a path that returns without re-assigning the cache field (an early
+    # `return` for "no write file open") leaves a reader-only process with handles of files that flush() may since have deleted
+    cache_fields = sorted(set(client.var_field.values()))
+
+    class _Dropped(Client):
+        def should_inline(self_, func, call, ctx):
+            return func.cls is sf.cls and func.name.startswith("_")
+
+        def event(self_, kind, node, state, ctx):
+            if kind in ("store", "del") and isinstance(node, ast.Attribute) and ctx.scope.is_self(node.value) and node.attr in cache_fields:
+                return (frozenset(state | {node.attr}),)
+            if kind == "call" and isinstance(node, ast.Call) and isinstance(node.func, ast.Attribute) and node.func.attr == "clear":
+                d_ = dotted(node.func.value)
+                if d_ and len(d_) == 2 and d_[1] in cache_fields:
+                    return (frozenset(state | {d_[1]}),)
+            return (state,)
+    if cache_fields:
+        it2 = Interp(prog, _Dropped())
+        ex2 = it2.run(f, {frozenset()}, sf.cls)
+        kept = sorted({c_ for st in (ex2.normal | ex2.ret) for c_ in cache_fields if c_ not in st}) if not it2.unrecognised else []
+        rep.check("C14.R9", f, "close:all-paths", not kept, f"every path through close() re-assigns {', '.join('self.' + c_ for c_ in cache_fields)}",
+                  f"close() can return without closing and dropping the read handles cached in self.{kept[0] if kept else ''} (an early exit "
+                  "that only looks at the write file)",
+                  scenario="a process that only reads: close(); another process flush()es and refills the storage; open() and read again: "
+                           "the cached handle still refers to the deleted file and returns the old text")
     stale = sorted({x for st in (ex.normal | ex.ret) for x in st})
     rep.check("C14.R9", f, "close", not stale, f"{client.closes} close sites; every closed handle field is reset on every path",
               f"close() can return with self.{stale[0] if stale else ''} still holding closed handles",
